@@ -48,6 +48,17 @@ fn main() {
     let profile = args.str("profile", "fault");
     let out = args.str("out", "fault.ndjson");
     let replay: Option<J> = args.map.get("replay").map(|p| serde_json::from_str(&std::fs::read_to_string(p).unwrap()).unwrap());
+    // journal of started / finished fault points, flushed line by line: if the code under test kills the process
+    // (a panic while panicking) the unfinished entries name the candidates
+    let journal: Option<Mutex<std::fs::File>> = args.map.get("journal").map(|p| Mutex::new(std::fs::File::create(p).unwrap()));
+    let jlog = |j: J| {
+        if let Some(f) = &journal {
+            use std::io::Write;
+            let mut f = f.lock().unwrap();
+            writeln!(f, "{j}").unwrap();
+            f.flush().unwrap();
+        }
+    };
     let mut tw = TraceWriter::create(&out);
     let mut scripts = args.map.get("scripts-out").map(|p| TraceWriter::create(p));
     let total_runs = AtomicU64::new(0);
@@ -101,6 +112,7 @@ fn main() {
         if let Some(sw) = scripts.as_mut() {
             sw.write(&json!({"history": h, "cfg": cfg.to_json(), "steps": script, "calls0": calls0}));
         }
+        jlog(json!({"history": h, "cfg": cfg.to_json(), "steps": script, "calls0": calls0}));
         // the fault points
         let work: Vec<(u64, FaultMode)> = match &replay {
             Some(r) => vec![(r["k"].as_u64().unwrap(), if r["mode"].as_str() == Some("once") { FaultMode::Once } else { FaultMode::Permanent })],
@@ -117,6 +129,7 @@ fn main() {
                             break;
                         }
                         let (k, mode) = work[w];
+                        jlog(json!({"start": w, "history": h, "k": k, "mode": if mode == FaultMode::Once { "once" } else { "permanent" }}));
                         let mut evs: Vec<J> = vec![json!({"e": "reset", "cfg": cfg.to_json(), "history": h, "k": k,
                                                           "mode": if mode == FaultMode::Once { "once" } else { "permanent" }, "calls0": calls0})];
                         let mut ex = Exec::new(cfg.clone());
@@ -177,6 +190,7 @@ fn main() {
                         let nerr = evs.iter().filter(|e| e.get("r").and_then(|r| r.get("err")).is_some_and(|x| x == "Io" || x == "PreviousIo")).count() as u64;
                         errors_returned.fetch_add(nerr, Ordering::Relaxed);
                         total_runs.fetch_add(1, Ordering::Relaxed);
+                        jlog(json!({"done": w, "history": h}));
                         results.lock().unwrap().push((w, evs));
                     }
                 });
